@@ -41,7 +41,7 @@ pub struct Choice {
 
 pub fn strategy() -> BoxedStrategy<Choice> {
   let line = (
-    0u8..9,
+    0u8..12,
     prop::collection::vec(0u8..12, 0..=2),
     prop::option::weighted(0.45, 0u8..12),
     prop::bool::weighted(0.25),
@@ -124,12 +124,35 @@ pub fn interpret(ch: &Choice, _st: &mut Stats) -> Option<Case> {
     if depth > base {
       out.push_str(&format!("{}{{\n", "  ".repeat(base)));
     }
-    for c in &l.own {
-      out.push_str(&format!("{pad}{lc} {}\n", comment_body(*c)));
+    if l.stmt as usize >= STMTS.len() {
+      // a call spread over several lines: the finding starts on its first line; a second own-line
+      // comment sits inside, on the line before the closing parenthesis (it governs that line,
+      // where no finding starts)
+      let comma = if matches!(lang, SupportLang::C | SupportLang::Java) { "" } else { "," };
+      let (outer, inner) = match l.stmt as usize - STMTS.len() {
+        0 => ("foo", "bar(2)"),
+        1 => ("baz", "foo(1)"),
+        _ => ("qux", "3"),
+      };
+      if let Some(c) = l.own.first() {
+        out.push_str(&format!("{pad}{lc} {}\n", comment_body(*c)));
+      }
+      out.push_str(&format!("{pad}{outer}(\n{pad}  {inner}{comma}\n"));
+      if let Some(c) = l.own.get(1) {
+        out.push_str(&format!("{pad}  {lc} {}\n", comment_body(*c)));
+      }
+      out.push_str(&format!("{pad}){}", if semi { ";" } else { "" }));
+    } else {
+      for c in &l.own {
+        out.push_str(&format!("{pad}{lc} {}\n", comment_body(*c)));
+      }
+      let stmt = STMTS[l.stmt as usize % STMTS.len()];
+      out.push_str(&format!("{pad}{stmt}{}", if semi { ";" } else { "" }));
     }
-    let stmt = STMTS[l.stmt as usize % STMTS.len()];
-    out.push_str(&format!("{pad}{stmt}{}", if semi { ";" } else { "" }));
-    if let Some(t) = l.trailing {
+    // trailing comments only after single-line statements (the property's quantifier); after the
+    // closing line of a multi-line statement the implementation treats the comment as an own-line
+    // one and silences the *next* line (observed, outside the property; see DESIGN 12.8)
+    if let (Some(t), true) = (l.trailing, (l.stmt as usize) < STMTS.len()) {
       out.push_str(&format!(" {lc} {}", comment_body(t)));
     }
     out.push('\n');
